@@ -191,17 +191,77 @@ class C14(Prop):
         return out
 
     # -------------------------------------------------------------------------------
+    # The model value is compared with the observation INSIDE Coq (all_eqb / koenig_eqb, proved sound in
+    # ModelProofs.all_eqb_eq) and only a boolean is printed: lib.coq_eval reads a shard's stdout only after
+    # coqc has exited, so a shard printing more than the pipe buffer would block.  Cases whose boolean is
+    # false (or whose observation cannot be written as a literal) are re-evaluated in full for the message.
+    @staticmethod
+    def _zl(xs):
+        return coq_list(xs, coq_z)
+
+    def _expected(self, c, ob):
+        """the observation as a Coq literal of the type of run_all / run_koenig_traces; None if it has no such form"""
+        if "exception" in ob:
+            return None
+        if "ctor_exception" in ob:
+            return "None"
+        ll = lambda xss: coq_list(xss, self._zl)
+        tr = coq_list(ob["traces"], lambda t: f"({coq_z(t[0])}, {self._zl(t[1])}, {self._zl(t[2])})")
+        if c["kind"] == "koenig":
+            return tr
+        if ob.get("mvc_assert"):
+            return None
+        return (f"Some ({ll(ob['adj_u'])}, {ll(ob['adj_v'])}, Some ({_pairs(ob['matching'])}, {self._zl(ob['u_cover'])}, "
+                f"{self._zl(ob['v_cover'])}, true, {tr}))")
+
+    def _full_expr(self, c):
+        a = f"{coq_z(c['nu'])} {coq_z(c['nv'])} {_pairs(c['edges'])}"
+        if c["kind"] == "koenig":
+            return f"(run_all {a}, run_koenig_traces {a} {_pairs(c['matching'])})"
+        return f"run_all {a}"
+
+    FULL_LIMIT = 60
+
     def model(self, ctx, cases, obs):
-        exprs = []
-        for c in cases:
-            if c["kind"] == "koenig":
-                exprs.append(f"(run_all {coq_z(c['nu'])} {coq_z(c['nv'])} {_pairs(c['edges'])}, "
-                             f"run_koenig_traces {coq_z(c['nu'])} {coq_z(c['nv'])} {_pairs(c['edges'])} {_pairs(c['matching'])})")
+        exprs, idx = [], []
+        out = [None] * len(cases)
+        full = []
+        for i, (c, ob) in enumerate(zip(cases, obs)):
+            if isinstance(ob, lib.SkipCase):
+                continue
+            exp = self._expected(c, ob)
+            a = f"{coq_z(c['nu'])} {coq_z(c['nv'])} {_pairs(c['edges'])}"
+            if exp is None:
+                full.append(i)
+            elif c["kind"] == "koenig":
+                # traces equal, and the model's cover is (U minus visited, sorted visited V) of the implementation's traces
+                zu = {u for t in ob["traces"] for u in t[1]}
+                zv = {v for t in ob["traces"] for v in t[2]}
+                cu = sorted(set(range(c["nu"])) - zu)
+                cv = sorted(zv)
+                exprs.append(f"koenig_eqb (run_koenig_traces {a} {_pairs(c['matching'])}) "
+                             f"(Some (Some (({self._zl(cu)}, {self._zl(cv)}), {exp})))")
+                idx.append(i)
             else:
-                exprs.append(f"run_all {coq_z(c['nu'])} {coq_z(c['nv'])} {_pairs(c['edges'])}")
-        vals = coq_eval(ctx, IMPORTS, exprs, shard=ctx.scale(120, 400))
-        # Coq `None` (constructor assert) must not be mistaken for "no model for this case"
-        return ["REJECT" if v is None else v for v in vals]
+                exprs.append(f"all_eqb (run_all {a}) ({exp})")
+                idx.append(i)
+        vals = coq_eval(ctx, IMPORTS, exprs, shard=ctx.scale(100, 500))
+        for i, v in zip(idx, vals):
+            if v is True:
+                out[i] = "EQ"
+            elif isinstance(v, BaseException):
+                out[i] = v
+            else:
+                full.append(i)
+        full.sort()
+        for i in full[self.FULL_LIMIT:]:
+            out[i] = "NEQ"
+        sel = full[:self.FULL_LIMIT]
+        fvals = coq_eval(ctx, IMPORTS, [self._full_expr(cases[i]) for i in sel], shard=5)
+        for i, v in zip(sel, fvals):
+            # Coq `None` (constructor assert) must not be mistaken for "no model for this case"
+            out[i] = "REJECT" if v is None else v
+        return out
 
     @staticmethod
     def _l(x):
@@ -211,6 +271,10 @@ class C14(Prop):
         return x
 
     def compare(self, case, ob, mo):
+        if mo == "EQ":
+            return None
+        if mo == "NEQ":
+            return "model and implementation differ (details only for the first %d differing cases)" % self.FULL_LIMIT
         if "exception" in ob:
             return f"implementation raised {ob['exception']} where the model runs"
         kt = None
